@@ -87,11 +87,47 @@ def solve(spec):
             sol.solve_receiver(r, mat, fl, **kw)       # documented default decorator=None
         else:
             sol.solve_receiver(r, mat, fl, decorator=lambda x, n: x, **kw)
+    r._verif_solid = (ps["solid"], mat)
     return r, fl
 
 
-def predicates(spec, r, fl):
+def metal_consistency(spec, r, fl):
+    """every stored wall field is ONE implicit step of the plain finite-difference problem from the stored field
+    of the previous time, under the stored fluid state of that time (FilmCoefficientConvectiveBC built from the
+    tube's own axial results): the coupled driver may iterate as it likes, but what it stores must be that step.
+    (In steady solid mode the previous field is only a starting guess.)"""
+    receiver, thermal, library, solverparams, managers, flowpath = mods()
     bad = []
+    solid, mat = r._verif_solid
+    times = np.array(spec["times"], dtype=float)
+    for p, panel in enumerate(r.panels.values()):
+        for k, tube in enumerate(panel.tubes.values()):
+            keep = tube.inner_bc
+            try:
+                for i in range(1, len(times)):
+                    if spec.get("reset") and np.isclose(times[i] % spec.get("period", 24.0), 0):
+                        continue
+                    fT = np.array(tube.axial_results["fluid_temperature"][i])
+                    film = np.array(fl.film_coefficient(fT, np.array(tube.axial_results["fluid_velocity"][i]), tube.r - tube.t))
+                    tube.set_bc(receiver.FilmCoefficientConvectiveBC(tube.r - tube.t, tube.h, tube.nz, fT, film), "inner")
+                    prob = thermal.FiniteDifferenceImplicitThermalProblem(tube, mat, fl, **thermal.deparametrize_finite_difference(solid))
+                    Tn = np.array(tube.quadrature_results["ghost_temperature"][i - 1], copy=True)
+                    want = np.array(prob.solve_step_substep(Tn, times[i], times[i] - times[i - 1]))
+                    got = np.array(tube.quadrature_results["ghost_temperature"][i])
+                    # the stored field was computed with the fluid state of the last-but-one Picard iterate
+                    d = float(np.max(np.abs(want - got)))
+                    if d > 1e-3 + 1e-6 * float(np.max(np.abs(want))):
+                        bad.append("t=%g: stored wall field of panel %d tube %d differs by %.4g K from one implicit step of the "
+                                   "finite-difference problem started from the stored field of the previous time (max |T| %.4g)"
+                                   % (times[i], p, k, d, float(np.max(np.abs(want)))))
+                        break
+            finally:
+                tube.inner_bc = keep
+    return bad
+
+
+def predicates(spec, r, fl):
+    bad = metal_consistency(spec, r, fl)
     times = np.array(spec["times"], dtype=float)
     T0 = spec.get("T0", 800.0)
     panels = list(r.panels.values())
